@@ -96,3 +96,138 @@ def polyline_moved(F, new, old, t, a):
     if len(ne) != len(oe):
         return z3.BoolVal(False)
     return conj(pt_eq((ne[2 * i], ne[2 * i + 1]), rigid_pt((oe[2 * i], oe[2 * i + 1]), t, a)) for i in range(len(ne) // 2))
+
+
+# ------------------------------------------------------------------------------ generic image of an object graph
+
+from pyvc.contract import CACHE_ATTRS, _attrs_of, deep_eq  # noqa: E402
+
+
+def _spatial_table():
+    import commonroad.scenario.state as st
+    from commonroad.common.common_lanelet import StopLine
+    from commonroad.planning.goal import GoalRegion
+    from commonroad.planning.planning_problem import PlanningProblem, PlanningProblemSet
+    from commonroad.prediction.prediction import Occupancy, SetBasedPrediction, TrajectoryPrediction
+    from commonroad.scenario.lanelet import Lanelet, LaneletNetwork
+    from commonroad.scenario.obstacle import DynamicObstacle, EnvironmentObstacle, PhantomObstacle, StaticObstacle
+    from commonroad.scenario.scenario import Scenario
+    from commonroad.scenario.traffic_light import TrafficLight
+    from commonroad.scenario.traffic_sign import TrafficSign
+    from commonroad.scenario.trajectory import Trajectory
+
+    return {
+        StopLine: {"_start": "point", "_end": "point"},
+        TrafficSign: {"_position": "point"},
+        TrafficLight: {"_position": "point"},
+        Lanelet: {"_left_vertices": "polyline", "_center_vertices": "polyline", "_right_vertices": "polyline",
+                  "_stop_line": "obj", "_polygon": "obj"},
+        LaneletNetwork: {"_lanelets": "objdict", "_traffic_signs": "objdict", "_traffic_lights": "objdict"},
+        Trajectory: {"_state_list": "objlist"},
+        Occupancy: {"_shape": "obj"},
+        SetBasedPrediction: {"_occupancy_set": "objlist"},
+        TrajectoryPrediction: {"_trajectory": "obj"},
+        StaticObstacle: {"_initial_state": "obj", "_initial_occupancy_shape": "ignore"},
+        DynamicObstacle: {"_initial_state": "obj", "_prediction": "obj", "_initial_occupancy_shape": "ignore", "history": "ignore"},
+        PhantomObstacle: {"_prediction": "obj"},
+        EnvironmentObstacle: {"_obstacle_shape": "obj"},
+        Scenario: {"_static_obstacles": "objdict", "_dynamic_obstacles": "objdict", "_phantom_obstacle": "objdict",
+                   "_environment_obstacle": "objdict", "_lanelet_network": "obj"},
+        GoalRegion: {"_state_list": "objlist"},
+        PlanningProblem: {"_initial_state": "obj", "_goal_region": "obj"},
+        PlanningProblemSet: {"_planning_problem_dict": "objdict"},
+    }
+
+
+_TABLE = None
+
+
+def image(F, old, new, t, a):
+    """`new` is the image of `old` under p -> R(a)(p+t), th -> th+a: spatial attributes moved, all others equal"""
+    global _TABLE
+    import commonroad.scenario.state as st
+
+    if _TABLE is None:
+        _TABLE = _spatial_table()
+    if old is None or new is None:
+        return z3.BoolVal(old is None and new is None)
+    if F.isinstance(old, (Rectangle, Circle, Polygon, ShapeGroup)):
+        return shape_moved(F, new, old, t, a)
+    if F.type(old) is not F.type(new):
+        return z3.BoolVal(False)
+    cls = F.type(old)
+    if issubclass(cls, st.State):
+        return state_image(F, old, new, t, a)
+    spec = None
+    for k in cls.__mro__:
+        if k in _TABLE:
+            spec = _TABLE[k]
+            break
+    if spec is None:
+        return deep_eq(old, new, F, CACHE_ATTRS)
+    do, dn = _attrs_of(old), _attrs_of(new)
+    conds = []
+    keys = set(do) | set(dn)
+    for k in sorted(keys):
+        kind = spec.get(k, "ignore" if k in CACHE_ATTRS else "eq")
+        if kind == "ignore":
+            continue
+        if k not in do or k not in dn:
+            conds.append(False)
+            continue
+        o, n = do[k], dn[k]
+        if kind == "eq":
+            conds.append(deep_eq(o, n, F, CACHE_ATTRS))
+        elif kind == "point":
+            eo, en = F.elems(o), F.elems(n)
+            conds.append(z3.BoolVal(len(eo) == len(en) == 2))
+            if len(eo) == len(en) == 2:
+                conds.append(pt_eq((en[0], en[1]), rigid_pt((eo[0], eo[1]), t, a)))
+        elif kind == "polyline":
+            conds.append(z3.BoolVal(F.shape(o) == F.shape(n)))
+            conds.append(polyline_moved(F, n, o, t, a))
+        elif kind == "obj":
+            conds.append(image(F, o, n, t, a))
+        elif kind == "objlist":
+            if len(o) != len(n):
+                conds.append(False)
+            else:
+                conds.extend(image(F, x, y, t, a) for x, y in zip(o, n))
+        elif kind == "objdict":
+            if set(o.keys()) != set(n.keys()):
+                conds.append(False)
+            else:
+                conds.extend(image(F, o[key], n[key], t, a) for key in o)
+    return conj(conds)
+
+
+def state_image(F, old, new, t, a):
+    import commonroad.scenario.state as st
+
+    do, dn = _attrs_of(old), _attrs_of(new)
+    if set(do) != set(dn):
+        return z3.BoolVal(False)
+    conds = []
+    pm = F.type(old) is st.PMState
+    for k in sorted(do):
+        o, n = do[k], dn[k]
+        if o is None or n is None:
+            conds.append(o is None and n is None)
+        elif k == "position":
+            if F.isinstance(o, (Rectangle, Circle, Polygon, ShapeGroup)):
+                conds.append(shape_moved(F, n, o, t, a))
+            else:
+                conds.append(pt_eq(xy(F, n), rigid_pt(xy(F, o), t, a)))
+        elif k == "orientation":
+            if F.isinstance(o, AngleInterval):
+                conds.append(interval_moved(F, n, o, a))
+            else:
+                conds.append(orientation_moved(n, o, a))
+        elif pm and k in ("velocity", "velocity_y") and not F.isinstance(do["velocity"], Interval) and do.get("velocity_y") is not None \
+                and not F.isinstance(do["velocity_y"], Interval):
+            s, c = sc(a)
+            vx, vy = R(do["velocity"]), R(do["velocity_y"])
+            conds.append(R(n) == (c * vx - s * vy if k == "velocity" else s * vx + c * vy))
+        else:
+            conds.append(deep_eq(o, n, F, CACHE_ATTRS))
+    return conj(conds)
